@@ -20,11 +20,12 @@ SPEC = {
         "the Go map iteration order of pendingWriteLog is free: logs are compared sorted by key (apply_order_irrelevant justifies it)",
         "an empty write log is not stored by either backend, GetWriteLog answers 'not found' for it; the harness treats that as the empty log",
         "the start root of an Apply is stored in the applying database (or is the empty root)",
+        "which roots a database serves a log for is ported, not derived (Model.serve): badger serves every stored root; pathbadger refuses pending roots whose batch did not get sequence number 0 of its (version, type) (writelog.go:109-113); roots that lost finalization are refused; the theorem is 'served => correct'",
     ],
 }
 
 MANIFEST = {
     "technique": "Coq proof (invariant over the pending write log by induction over arbitrary batches; canonical sorted maps; case analysis of Apply) with differential correspondence check against the real MKVS tree, both node databases and LocalBackend.Apply",
-    "level_text": "Theorems in coq/Props/C13.v hold for every old contents and every batch of inserts/removes: the log built at commit has distinct keys, is sound, complete and minimal, and applied (in any order) to the old contents gives exactly the new contents; the hashed log revives to itself; Apply persists a root iff the recomputed digest equals the expected one (or the root is already stored), a rejected Apply leaves the database unchanged and the expected root absent, every stored root is the digest of its contents over any history of Apply calls, and a log producing other contents is rejected unless root_of collides. The model is tied to the code by committing generated batches on real badger and pathbadger databases, comparing the served write log and the end contents with the model, and replaying corrupted and correct logs through LocalBackend.Apply on a second database; an independent Go oracle on maps judges the property on the implementation.",
+    "level_text": "Theorems in coq/Props/C13.v hold for every old contents and every batch of inserts/removes: the log built at commit has distinct keys, is sound, complete and minimal, and applied (in any order) to the old contents gives exactly the new contents; the hashed log revives to itself; Apply persists a root iff the recomputed digest equals the expected one (or the root is already stored), a rejected Apply leaves the database unchanged and the expected root absent, every stored root is the digest of its contents over any history of Apply calls, and a log producing other contents is rejected unless root_of collides. The model is tied to the code by committing generated batches on real badger and pathbadger databases, comparing the served write log (for linear chains and for 2-3 competing candidate roots per version, before and after finalizing one of them) and the end contents with the model, and replaying corrupted and correct logs through LocalBackend.Apply on a second database; an independent Go oracle on maps judges the property on the implementation.",
     "level_note": "Trusted: Coq kernel; the harness; contents-level abstraction of trees (bridge to root hashes is the Mkvs area's theorem); root hash treated as an arbitrary function, collisions an explicit disjunct. Not modelled: database internals below the set of stored roots, pathbadger's path-keyed log storage (checked by K/S only), encoding of stored logs.",
 }
